@@ -16,6 +16,10 @@ CHECKS = {
    technique='symbolic execution of assemble_csr on z3 integer arrays (all paths) with SMT validity of accepted<=>well-formed; NumpyMatrix operations on z3 terms vs a dense specification, per-element SMT equivalence',
    text='Validation is decided for ALL integer row-pointer/column-index arrays of lengths nnz<=4, nrows<=3 (ncols in {1,2,3}): every execution path of assemble_csr is accepted only if well-formed and rejected only if ill-formed.  Every NumpyMatrix operation (export dense/csr/coo, @, T, neg, scale, div, +, -, diagonal, rowsupp, submatrix, pickle) equals the dense model for all real/complex values on every enumerated sparsity pattern up to 3x3 including 0xN/Nx0.',
    note='NumPy backend only (SciPy/MKL are not installed and their C code is not encodable).  Patterns/shapes are enumerated, values and index arrays are solver variables.  Trusted: z3, SArray model.'),
+ 'C14': dict(level='other', design='4/C14',
+   technique='symbolic execution of the certifying glue (Matrix._solver, Matrix.solve, System.solve driver) with nondeterministic back-end stubs; per-path SMT validity of "normal return implies certificate"; IEEE extended reals for residual norms',
+   text='For all matrices n<=2 (3 thorough), right-hand sides, tolerances, constraint patterns (enumerated masks, symbolic values), arbitrary vectors returned by the linear back end and arbitrary residual-norm sequences (finite/NaN/inf, K<=3 (4) iterations) a normal return implies: result finite, constrained entries exactly the prescribed values, free residual within the effective tolerance, at least miniter iterations, last norm finite and <= tol; otherwise a Matrix/Solver error is raised.  Linear solves are independent of the initial guess (exact back end given by its contract).',
+   note='Declined: the numerical algorithms themselves (factorisations, Krylov iterations, line searches, time stepping, SciPy/MKL).  Stubs and norm models are listed in the evidence.  Driver counterexamples are reported only if reproduced through the public API with a real Newton system.'),
 }
 
 NOT_APPLICABLE = {
